@@ -79,6 +79,8 @@ Step(L, env, s, ev, copied) ==
                           IF ~Ok(s1.res) THEN Fail(s1, s1.res) ELSE JumpPush(L, s1, i, s1.res)
        [] cur.ty = "f" ->
             IF i + 2 > n THEN [s EXCEPT !.st = "panic:index"]
+            \* (a program exported from the real code may be malformed: only leaves can be inlined)
+            ELSE IF L.nodes[i + 1].ty \notin {"c", "v"} \/ L.nodes[i + 2].ty \notin {"c", "v"} THEN [s EXCEPT !.st = "panic:shape"]
             ELSE
             LET c1 == L.nodes[i + 1]
                 c2 == L.nodes[i + 2]
@@ -174,6 +176,7 @@ TryStep(L, env, av, s, ev, copied) ==
                           IF ~Ok(s1.res) THEN Fail(s1, s1.res) ELSE TryClimbPush(L, s1, i, cur, s1.res)
        [] cur.ty = "f" ->
             IF i + 2 > n THEN [s EXCEPT !.st = "panic:index"]
+            ELSE IF L.nodes[i + 1].ty \notin {"c", "v"} \/ L.nodes[i + 2].ty \notin {"c", "v"} THEN [s EXCEPT !.st = "panic:shape"]
             ELSE
             LET s1 == LeafProxy(s, L.nodes[i + 1], env, av) IN
             IF ~Ok(s1.res) THEN Fail(s1, s1.res)
